@@ -35,6 +35,13 @@ func vModelAnyNew(m proto.Message) (*anypb.Any, error) {
 	return &anypb.Any{TypeUrl: vReqInfoURL, Value: []byte{9}}, nil
 }
 
+var vUserDetail = &anypb.Any{TypeUrl: "type.googleapis.com/google.protobuf.StringValue", Value: []byte{10, 1, 'u'}}
+
+// natively the definition is a decoded copy: compare by content
+func vIsUserDetail(a *anypb.Any) bool {
+	return a != nil && a.TypeUrl == vUserDetail.TypeUrl && len(a.Value) == 3 && a.Value[2] == 'u'
+}
+
 func h02a(NR, ND int) {
 	streamType := vInt("stream", 0, 6) // includes unspecified (0) and an out-of-range value (6)
 	nReq := vInt("nreq", 0, NR)
@@ -44,6 +51,7 @@ func h02a(NR, ND int) {
 	hasErr := vBool("hasErr")
 	unaryResp := vInt("unaryResp", 0, 2) // nothing, data, error
 	preset := vBool("preset")
+	userDetail := vBool("userDetail") // the defined error carries a detail of its own
 	defAt := vInt("defAt", 0, 2) // index of the request message that carries the response definition
 
 	data := make([][]byte, 0, 3)
@@ -56,13 +64,20 @@ func h02a(NR, ND int) {
 		sdef = &conformancev1.StreamResponseDefinition{ResponseData: data}
 		if hasErr {
 			sdef.Error = &conformancev1.Error{Code: 5}
+			if userDetail {
+				sdef.Error.Details = []*anypb.Any{vUserDetail}
+			}
 		}
 		udef = &conformancev1.UnaryResponseDefinition{}
 		switch unaryResp {
 		case 1:
 			udef.Response = &conformancev1.UnaryResponseDefinition_ResponseData{ResponseData: []byte{7}}
 		case 2:
-			udef.Response = &conformancev1.UnaryResponseDefinition_Error{Error: &conformancev1.Error{Code: 5}}
+			ue := &conformancev1.Error{Code: 5}
+			if userDetail {
+				ue.Details = []*anypb.Any{vUserDetail}
+			}
+			udef.Response = &conformancev1.UnaryResponseDefinition_Error{Error: ue}
 		}
 	}
 	reqs := make([]*anypb.Any, 0, 3)
@@ -123,6 +138,13 @@ func h02a(NR, ND int) {
 		exp := tc.ExpectedResponse
 		used := hasDef && defAt == 0
 		vAssert((exp.Error != nil) == (used && unaryResp == 2), "unary / client stream: an error is expected iff the first request's definition has one")
+		if exp.Error != nil {
+			nd := 1
+			if userDetail {
+				nd = 2
+			}
+			vAssert(len(exp.Error.Details) == nd && (!userDetail || vIsUserDetail(exp.Error.Details[0])), "unary error: the definition's own details are kept and the request info is appended")
+		}
 		if exp.Error == nil {
 			vAssert(len(exp.Payloads) == 1, "unary / client stream without error: exactly one expected payload")
 			if len(exp.Payloads) == 1 {
@@ -160,6 +182,20 @@ func h02a(NR, ND int) {
 			}
 		}
 		vAssert((exp.Error != nil) == hasErr, "expected error present iff the definition has one")
+		if exp.Error != nil {
+			// the servers append the request info to the error's own details only when no response was sent
+			nd := 0
+			if userDetail {
+				nd = 1
+			}
+			if nData == 0 {
+				nd++
+			}
+			vAssert(len(exp.Error.Details) == nd, "stream error: the definition's own details are kept; the request info is appended iff there is no response message")
+			if userDetail && len(exp.Error.Details) > 0 {
+				vAssert(vIsUserDetail(exp.Error.Details[0]), "stream error: the definition's own detail comes first")
+			}
+		}
 	}
 }
 
